@@ -7,6 +7,7 @@ CONSTANTS Names <- NamesMid
           Variants <- VariantsAll
           HarmTypes = {"dir", "file", "link"}
           MaxEntries = 2
+          Reuse <- ReuseNone
           Devs = {}
 INVARIANTS Emit
 CHECK_DEADLOCK FALSE
